@@ -20,6 +20,7 @@ def run(facts, tier):
         ("couplings", lambda fa: cowrite.obligations(fa, ['kll_sketch', 'req_sketch', 'req_compactor', 'quantiles_sketch']), 10, "fields that every mutator updates together (counters, extremes, cached values) are still updated together"),
         ("emptiness predicate support", lambda fa: predicates.obligations(fa, ['kll_sketch','req_sketch','quantiles_sketch']), 3, "the emptiness predicate still consults every field it depended on in the reviewed tree (spec/predicates.json)"),
         ("tautologies", lambda fa: generic_lints.tautologies(fa, ('kll/', 'req/', 'quantiles/', 'common/')), 2, "no comparison / assignment / min-max with two identical operands, no if-else with identical arms"),
+        ("kll sorted run", coin_rules.sorted_run_is_halved_run, 2, "the range KLL compaction sorts before halving level 0 is exactly the run it halves (update path and merge path)"),
         ("hazards", lambda fa: hazard_lints.hazards(fa, ('kll/', 'req/', 'quantiles/', 'common/')), 2, "no 64-bit value silently narrowed at a call of a library function, no numeric_limits<floating>::min() as a lowest value, no random engine constructed inside a loop, no read of a moved-from parameter, no unguarded unsigned `x - c` loop bound (reviewed instances in spec/hazards.json)"),
         ("duplicate operands", lambda fa: generic_lints.duplicate_conjuncts(fa, ('kll/', 'req/', 'quantiles/', 'common/')), 2, "no logical chain tests the same operand twice (copy-paste of the wrong peer)"),
         ("state-writing shortcuts", lambda fa: generic_lints.state_writing_shortcuts(fa, ['kll_sketch','req_sketch','req_compactor','quantiles_sketch']), 1, "no merge / update branch writes fields and returns early past the steps all other paths run (compaction loop, totals, cached counts); one reviewed exception"),
